@@ -35,6 +35,10 @@ CLAIMED = {
    text="Lock-state obligations on every path of Session.client, its disconnect callback, findServiceName/findServiceID and Terminate (RUnlock only when read-held, Unlock only when write-held, nothing held at return), guard obligations on every access to the connection pool and service list, and the insertion discipline: a client is stored for an address only under the write lock and only when the address is absent (mid-body assertion at the insertion), so at most one client per address is ever stored; pooled clients are never nil.",
    note="Only the crash-freedom / at-most-one-connection part is decided. 'Every request for a registered service succeeds with a working proxy' depends on the network and is not decided. Schedules through the monitor rule. bus.SelectEndPoint, bus.NewClient and the EndPoint/Channel/Client interface methods are abstract (assumed contracts).",
    technique="contract-based deductive verification: lock-state and guard obligations, monitor invariant, SMT", ref="7 C19"),
+ "C06": dict(level="proof",
+   text="The authentication gate as contracts over the abstract per-connection state authd: firewall passes a message iff authd or service 0; the per-connection consumer loop of server.handle hands a message to the router only on a path where firewall accepted it (mid-body assertion), otherwise replies with an error and closes; serviceAuthenticate.Authenticate can set authd only if it already was set or the Authenticator accepts exactly the StringValue user/token entries of the client's map (nothing else of the map is read; wrongly typed credentials change nothing); service 0 answers any other action with an error and changes nothing; wrapAuthenticate is the only caller; the concrete channel ties authd to its own capability map (CapabilityMap.Authenticated == state entry is Uint/Int 3, SetAuthenticated touches only that key). All message fields, payloads, capability maps and authenticators are symbolic.",
+   note="authd changes only through these clauses, which is the inductive invariant over a connection's message history (composition argued, not machine-checked). Per-connection freshness of the capability map (DefaultCap in handle) and tracedChannel are not under contract; received messages are assumed non-nil; server.Router and channel.endpoint are assumed immutable after set-up. Abstract: Authenticator (uninterpreted answer), Channel send methods.",
+   technique="contract-based deductive verification with ghost authentication state, SMT", ref="7 C06"),
 }
 
 NOT_APPLICABLE = {
